@@ -38,6 +38,12 @@ def install_sim():
     import rpyc.utils.helpers as H
     P.Lock = S.SimLock
     P.Condition = S.SimCondition
+    # any other primitive the module may import from threading (a change may introduce RLock, Event, ...)
+    for nm, sim in (("RLock", S.SimRLock), ("Event", S.SimEvent), ("Thread", S.SimThread)):
+        if hasattr(P, nm):
+            setattr(P, nm, sim)
+        if hasattr(C, nm):
+            setattr(C, nm, sim)
     P.time = S.sim_time
     C.Lock = S.SimLock
     L.time = S.sim_time
